@@ -758,6 +758,11 @@ pub fn units(prop: &str, tier: Tier) -> Option<Vec<Unit>> {
                     v.push(e1("ctx-huge-counts", "counts far beyond anything storable (usize::MAX / 4), as a static context and read from the input as a length prefix, x every way of configuring a repetition from the context x sinks".into(), en::ctx_huge_templates()).alpha(&['a', 'e', 'b'], pick(4, 5)).cfg(CfgId::RichCx).probes(NOPROBE).alarm(alarm | CHK).unit());
                     v.push(Unit::Custom { name: "primitive-seq-flavours+unbounded".into(), run: Box::new(move |cx| eng_inputs::run("primitive-seq-flavours+unbounded", tier, cx)) });
                     v.push(Unit::Custom { name: "pull-budgets".into(), run: Box::new(move |cx| eng_inputs::run("pull-budgets", tier, cx)) });
+                    // the text parsers on &Graphemes (clusters of several code points, multi-byte first code points): every
+                    // string over the 16-character alphabet returns a result
+                    for u in eng_text::units(tier).into_iter().filter(|u| u.name == "text-graphemes") {
+                        v.push(Unit::Custom { name: u.name.clone(), run: Box::new(move |cx| eng_text::run_unit(&u, cx)) });
+                    }
                     v.push(Unit::Custom { name: "text-totality".into(), run: Box::new(move |cx| eng_text::run_totality("text-totality", if tier == Tier::Quick { 4 } else { 5 }, cx)) });
                 }
                 if n == "rich" {
